@@ -48,7 +48,7 @@ func ledgerSnapshot(t *rapid.T, wm *masswallet.WalletManager, id string) []strin
 	}
 	for addr, list := range utx {
 		for _, u := range list {
-			out = append(out, fmt.Sprintf("utxo %s %s:%d amount=%d height=%d confs=%d maturity=%d spentByPending=%v", addr, u.TxId, u.Vout, amt(u.Amount), u.BlockHeight, u.Confirmations, u.Maturity, u.SpentByUnmined))
+			out = append(out, fmt.Sprintf("utxo %s %s:%d amount=%d height=%d confs=%d maturity=%d", addr, u.TxId, u.Vout, amt(u.Amount), u.BlockHeight, u.Confirmations, u.Maturity))
 		}
 	}
 	sh, err := wm.GetStakingHistory(false)
